@@ -148,6 +148,15 @@ def execute(cfg, chooser, want_trace=False):
         cli.connect('urn:nfc:sn:svc')
         cli_addr.append(cli.getsockname())
         socks['a'] = cli
+        if cfg.get('extra') == 'server-first':
+            # the client only listens: whatever the server sent after its
+            # accept() returned must arrive
+            for i in range(n_ba):
+                m = cli.recv()
+                out['got_a'].append(m)
+                if m is None:
+                    return 'closed@%d' % i
+            return 'rcvd'
         established()
         wait_est()
         mine = range(n_ab)
@@ -178,6 +187,13 @@ def execute(cfg, chooser, want_trace=False):
     def b_main():
         conn = srv.accept()
         socks['b'] = conn
+        if cfg.get('extra') == 'server-first':
+            # the server speaks first, directly after accept() returned
+            # (the CC may still be queued)
+            for i in range(n_ba):
+                if not conn.send(message('b', i, cfg['size'])):
+                    return 'send-false@%d' % i
+            return 'sent'
         established()
         wait_est()
         for i in range(n_ab):
@@ -235,7 +251,9 @@ def execute(cfg, chooser, want_trace=False):
     s.spawn(lambda: B.run(terminate=lambda: stop[0]), 'llcB', daemon=True)
     s.spawn(guarded('a_send', a_main), 'a_send')
     s.spawn(guarded('b_recv', b_main), 'b_recv')
-    if n_ba:
+    if cfg.get('extra') == 'server-first':
+        s.quiet = False         # schedules of the connection set-up count
+    elif n_ba:
         s.spawn(guarded('b_send', b_send), 'b_send')
         s.spawn(guarded('a_recv', a_recv), 'a_recv')
     if cfg.get('extra') == 'busy':
@@ -378,6 +396,9 @@ def configs(tier):
                         extra='two-senders', traced=traced))
         out.append(dict(rw=(2, 2), n=(2, 0), agf=True, miu=128, size=20,
                         extra='reconnect', traced=traced, bound=1))
+        for agf in (True, False):
+            out.append(dict(rw=(1, 1), n=(0, 2), agf=agf, miu=128, size=20,
+                            extra='server-first', traced=traced, bound=1))
         return out
     for rw in ((1, 1), (2, 1), (1, 2), (2, 2)):
         for n in ((3, 0), (2, 2)):
@@ -395,6 +416,10 @@ def configs(tier):
     for rw in ((1, 1), (2, 2)):
         out.append(dict(rw=rw, n=(2, 0), agf=rw == (2, 2), miu=128, size=20,
                         extra='reconnect', traced=traced))
+    for rw in ((1, 1), (2, 2)):
+        for agf in (True, False):
+            out.append(dict(rw=rw, n=(0, 2), agf=agf, miu=128, size=20,
+                            extra='server-first', traced=traced))
     out.append(dict(rw=(2, 2), n=(4, 3), agf=True, miu=129, size=129,
                     traced=traced))
     out.append(dict(rw=(3, 3), n=(4, 0), agf=False, miu=128, size=1,
